@@ -160,3 +160,38 @@ func propC11(w *World, r *Run) {
 	ruleUnmarshalTotal(w, r, "C11.b")
 	ruleStrictInteger(w, r, "C11.c")
 }
+
+func init() {
+	props["C13"] = propC13
+}
+
+func propC13(w *World, r *Run) {
+	r.expl = "Decides, over every path of FeedOnce and of the retry closure (analysed as a root of its own, linked to submitToWitness through the captured cells): a checkpoint reaches the witness only after ParseCheckpoint under opts.LogOrigin/opts.LogSigVerifier succeeded on the very bytes submitted (VERIFY-BEFORE-SUBMIT); Update's old size is the size of the checkpoint parsed (same origin/key) from GetLatestCheckpoint's result of this very attempt, or 0 when that result is empty; FetchProof is called with (that checkpoint, the submitted one) in this order and Update's proof is its result, or the empty proof only under equal sizes and equal roots (ANCHORED-ARGS); no Update path admits witness size > submitted size and the ahead arm is the only permanent error (NEVER-WHEN-AHEAD); Retry is bound to the caller's context and transient failures are plain errors (RETRY-TO-CONTEXT); success returns exactly what Update returned (RESULT); a missing latest checkpoint is assumed only on os.ErrNotExist (with C07.e for the adapter)."
+	r.notdec = []string{"that retries eventually succeed, back-off timing", "behaviour of the FetchCheckpoint/FetchProof implementations (see C18/C19)"}
+	r.trusted = append(tbCommon, "backoff.Retry/WithContext/Permanent contracts, formats/log.ParseCheckpoint")
+	ruleFeeder(w, r)
+	ruleAdapter(w, r, "C13.f")
+}
+
+func init() {
+	props["C15"] = propC15
+	props["C16"] = propC16
+}
+
+func propC15(w *World, r *Run) {
+	r.expl = "Decides on every path of distributeForLog: the request is a PUT whose body is bytes.NewReader of exactly GetLatestCheckpoint's result for l.ID, never written through (PUT-VERBATIM); it is built only after ParseCheckpoint(wRaw, l.Origin, l.Verifier, d.witSigV) succeeded and the facts imply exactly two verified signatures (VERIFY-BEFORE-PUT); the URL is baseURL + the path template with l.ID and url.PathEscape(witSigV.Name()) (TARGET); success is returned only where the facts imply client.Do succeeded, the method is still PUT and StatusCode == 200, every other arm returns a non-nil error, counters move accordingly (FAILURE-CLASSES); DistributeOnce attempts every log whatever the others did and reports failures iff some attempt failed (PER-LOG-ISOLATION, loop unrolled twice)."
+	r.notdec = []string{"validity of the signatures as numbers", "behaviour of net/http (redirect policy beyond the method check)", "more than two loop iterations (the loop body is identical per iteration)"}
+	r.trusted = append(tbCommon, "formats/log.ParseCheckpoint (Sigs lists verified signatures only), net/http client")
+	ruleDistributor(w, r)
+	ruleImmut(w, r, "C15.a", []fieldRef{{pRest, "Distributor", "logs"}, {pRest, "Distributor", "witSigV"}, {pRest, "Distributor", "witness"}, {pRest, "Distributor", "baseURL"}})
+}
+
+func propC16(w *World, r *Run) {
+	r.expl = "Decides: the GET handler writes GetCheckpoint(route variable logid)'s bytes unchanged with an implicit 200 and only on err == nil, and GetCheckpoint returns ReadOps(logID).GetLatest() unchanged (HANDLER-VERBATIM, with C04.d); the error arm answers httpForCode(status.Code(err)) of the same error and httpForCode maps NotFound, and only NotFound, to 404 (CODE-TABLE); the bundled client returns os.ErrNotExist only where the facts imply StatusCode == 404, the whole body only where they imply 200, other answers are different errors (CLIENT-MAPPING); the log list is json.Marshal of GetLogs(), which is the store's key list (LOG-LIST, with C03.d); the route pattern, compiled by the checker, matches 64-character lower-case hex (the output language of log.ID) under the variable name the handler reads, and client and server format the same path constant (ROUTE-ADMITS-IDS)."
+	r.notdec = []string{"gorilla/mux routing internals", "equality of served and stored bytes as runtime values (decided as value identity of terms)"}
+	r.trusted = append(tbCommon, "gorilla/mux variable syntax {name:regexp}, net/http")
+	ruleReadAPI(w, r)
+	ruleReadVerbatim(w, r, "C16.a")
+	ruleLogsFromKeys(w, r, "C16.d")
+	ruleNotFoundExact(w, r, "C16.b")
+}
